@@ -160,6 +160,7 @@ struct Env {
 void runBehaviour(Ctx &ctx, LoopPeer &peer, const QString &caseId, const QJsonArray &steps)
 {
     ctx.reset(caseId, { { "ids", jarr(kIds) } });
+    ctx.out.flush();  // a crash inside the library must not lose the executions already recorded
     Env e(peer);
     QMap<QString, QString> toOf;
     int stepNo = 0;
